@@ -1,4 +1,4 @@
-From TLXV Require Import C18.Defs C18.SV.
+From TLXV Require Import C18.Defs C18.SV C18.SVDims.
 Require Extraction. Require ExtrOcamlBasic.
 Extraction Language OCaml.
 Extraction "../ocaml/gen/C18_model.ml" Defs.npos Defs.size Defs.nthN
@@ -6,4 +6,5 @@ Extraction "../ocaml/gen/C18_model.ml" Defs.npos Defs.size Defs.nthN
   SV.compare SV.compare3 SV.compare5 SV.op_eq SV.op_ne SV.op_lt SV.op_gt SV.op_le SV.op_ge
   SV.starts_with_char SV.ends_with_char SV.starts_with SV.ends_with
   SV.find SV.rfind SV.find_first_of SV.find_last_of SV.find_first_not_of SV.find_last_not_of
-  SV.of_char SV.of_ptr_n SV.of_cstr.
+  SV.of_char SV.of_ptr_n SV.of_cstr
+  SVDims.window SVDims.at_throws SVDims.substr_dims SVDims.remove_prefix_dims SVDims.remove_suffix_dims SVDims.copy_dims.
